@@ -578,7 +578,7 @@ def run(ck: Check):
     tally = Tally()
     rng = ck.rng
     sample_for_coq = []          # (stream, expectation) re-evaluated by vm_compute
-    n_coq = ck.n(700, 8000)
+    n_coq = ck.n(400, 8000)
 
     # ---------------- known-finding corpus + corpus directory
     corpus = load_corpus()
